@@ -401,6 +401,44 @@ fn faults_for(mode: Mode, tier: Tier, seed: u64, img: &ImageInfo) -> Vec<Fault> 
                 }
             }
         }
+        // crafted damage (C04 only), continued: the pack's check block (kind byte + 32 hash bytes
+        // + CRC) altered with its CRC recomputed. The kind byte only to values that name no check
+        // at all (2, 3, 0x81, 0xFE): a block rewritten into another *valid* statement ("this pack
+        // has no check", or the hash of the altered bytes) is a forgery no unkeyed check can
+        // notice, and is not asked. And the checked bytes (0..38) of the manifest's pack
+        // descriptions, whose CRC lies in the part the global check blanks.
+        if mode == Mode::C04 {
+            for span in &img.spans[fi] {
+                if span.kind == b'C' {
+                    continue;
+                }
+                if span.check_block_size() == 37 {
+                    let cb = span.start + span.check_info_pos;
+                    let stored = u32::from_be_bytes(file[(cb + 33) as usize..(cb + 37) as usize].try_into().unwrap());
+                    if simcore::fault::crc32c_jubako(&file[cb as usize..(cb + 33) as usize]) != stored {
+                        simcore::harness_error("the harness's CRC-32C does not reproduce a stored check-block CRC");
+                    }
+                    if file[cb as usize] == 1 {
+                        for mask in [0x02u8, 0x03, 0x80, 0xFF] {
+                            out.push(Fault::FlipFix { file: fi, pos: cb, mask, block_start: cb, block_len: 33 });
+                        }
+                    }
+                    for pos in cb + 1..cb + 33 {
+                        out.push(Fault::FlipFix { file: fi, pos, mask: if pos % 2 == 0 { 0x01 } else { 0xFF }, block_start: cb, block_len: 33 });
+                    }
+                }
+                let n_slots = span.info_slots.len();
+                for (k, slot) in span.info_slots.iter().enumerate() {
+                    if n_slots > 8 && !(k < 2 || k + 2 >= n_slots || rng.chance(8, n_slots as u64)) {
+                        continue;
+                    }
+                    let lo = span.start + slot;
+                    for pos in lo..lo + 38 {
+                        out.push(Fault::FlipFix { file: fi, pos, mask: if pos % 2 == 0 { 0x01 } else { 0xFF }, block_start: lo, block_len: 252 });
+                    }
+                }
+            }
+        }
         // paired damage: a byte of the checked range together with the kind byte of the pack's
         // check block (blake3 -> "no check"): the check block's own CRC must catch the second one
         if mode != Mode::C06 {
@@ -1492,6 +1530,28 @@ pub fn parent_main(args: &Args, mode: Mode) -> ! {
         }
         ev.extra.insert("special_file_cases".into(), json!(special_cases));
     }
+    // (C04) manifests above 1 MiB with crafted alterations of pack descriptions (bigmanifest.rs)
+    if mode == Mode::C04 && std::env::var("VERIF_ONLY_IMAGE").is_err() {
+        let r = crate::bigmanifest::pass(args.tier, args.seed, &scratch.sub("bigmanifest"), n);
+        ev.evaluations += r.cases;
+        ev.fired("crafted: checked byte of a pack description of a manifest above 1 MiB altered, description CRC recomputed", r.fired);
+        for img in &r.images {
+            ev.distinct.insert(simcore::prng::hash_label(0, &img.to_string(), 0));
+        }
+        ev.extra.insert("big_manifest_images".into(), json!(r.images));
+        for (image, fault, detail) in r.violations {
+            violations.push(Violation {
+                signature: if fault == "none" {
+                    format!("{id}|fault-free|big-manifest")
+                } else {
+                    format!("{id}|big-manifest|still-true:ManifestPack::check|byte {} of a pack description", detail["byte_within_pack_description"])
+                },
+                image,
+                fault,
+                detail,
+            });
+        }
+    }
     // classify violations: known findings vs new
     let mut new_violations: Vec<&Violation> = Vec::new();
     for v in &violations {
@@ -1663,6 +1723,20 @@ pub fn replay_main(args: &Args, mode: Mode, file: &str) -> ! {
     let tier = Tier::parse(v["tier"].as_str().unwrap()).unwrap();
     let hooks = FHooks::install();
     let scratch = simcore::Scratch::new(&format!("{}-replay", mode.id()));
+    if image.starts_with("big-manifest-n") {
+        match crate::bigmanifest::replay(&image, &fault, seed, &scratch.sub("bigmanifest")) {
+            None => {
+                println!("no violation on replay");
+                std::process::exit(0)
+            }
+            Some(verdict) => {
+                println!("VIOLATION property={} replay={file}", mode.id());
+                println!("  {image} {fault}: the manifest's check answers {verdict}");
+                println!("  recorded signature: {}", v["signature"]);
+                std::process::exit(1)
+            }
+        }
+    }
     let a2 = Args {
         cmd: args.cmd.clone(),
         tier,
